@@ -306,10 +306,15 @@ class Explorer:
             top = self.stack[-1]
             top[0] = top[1].pop(0)
 
-    def record(self, name, kind, ok, failure=None, dt=0.0):
-        o = self.obligations.setdefault(name, {"kind": kind, "vcs": 0, "failed": [], "time": 0.0})
+    def record(self, name, kind, ok, failure=None, dt=0.0, live=True, const_false=False):
+        o = self.obligations.setdefault(name, {"kind": kind, "vcs": 0, "failed": [], "time": 0.0, "live": 0,
+                                               "const_false": True})
         o["vcs"] += 1
         o["time"] += dt
+        if live:
+            o["live"] += 1          # path VCs whose path condition is satisfiable (the VC is not vacuous)
+        if not const_false:
+            o["const_false"] = False
         if not ok:
             o["failed"].append(failure)
 
@@ -547,11 +552,15 @@ class PathCtx:
         if z3.is_true(g):
             self.ex.record(name, kind, True, dt=0.0)
             return True
+        # vacuity guard: is this path possible at all (quantifier-free path condition)?  An obligation all of whose
+        # path VCs sit on impossible paths has not been checked at all (reported as undecided, see verify_contract).
+        live = self._check() != z3.unsat
+        cfalse = z3.is_false(g)
         self.solver.push()
         for l in self.lemmas:
             self.solver.add(l)
         self.solver.add(z3.Not(g))
-        r = self._check()
+        r = self._check() if live else z3.unsat
         fail = None
         if r == z3.sat:
             m = self.solver.model()
@@ -584,7 +593,7 @@ class PathCtx:
         self.solver.pop()
         if fail is not None and _os.environ.get("PYVC_SPLIT"):
             self._explain(name, g)
-        self.ex.record(name, kind, fail is None, fail, dt=time.time() - t0)
+        self.ex.record(name, kind, fail is None, fail, dt=time.time() - t0, live=live, const_false=cfalse)
         if fail is not None and fail.status == "violated" and self._prove_unsat(g) == z3.unsat:
             # the goal is impossible on this path: nothing meaningful follows (the failure is recorded)
             raise PathAbort("path ends at failed obligation %s" % name)
